@@ -3,10 +3,14 @@
 /verif/seeded/<PID>-N, remove the worktree, and run seedtest on each (seeds 1,2).  Prints one summary line per seed."""
 import sys, os, re, shutil, subprocess, glob
 pid, wt = sys.argv[1], sys.argv[2]
-checks = [pid] + sys.argv[3:]
+checks = [pid] + [a for a in sys.argv[3:] if not a.startswith('--')]
 existing = [int(re.search(r"-(\d+)$", d).group(1)) for d in glob.glob("/verif/seeded/%s-*" % pid)]
 n = max(existing + [0])
 made = []
+if "--partial" not in sys.argv and not all(os.path.exists(os.path.join(wt, f)) and os.path.getsize(os.path.join(wt, f)) > 0
+                                           for f in ("patch_1.diff", "demo_1.py", "patch_2.diff", "demo_2.py")):
+    sys.exit("%s: the worktree %s does not hold both changes yet (the sub-agent may still be working): nothing done; "
+             "pass --partial to install what is there" % (pid, wt))
 for k in (1, 2):
     p, d = os.path.join(wt, "patch_%d.diff" % k), os.path.join(wt, "demo_%d.py" % k)
     if not (os.path.exists(p) and os.path.exists(d)) or os.path.getsize(p) == 0:
